@@ -108,7 +108,14 @@ def tie_rule(ck, facts):
                            "(findings/C05_blank_graph_name_ties.rs): relabelling the input changes the canonical document", cf.loc)
                 else:
                     ck.ok("R5.6", "step 5.3: the sort key is more than the hash component")
-    fns = facts.find_fns(crate="sophia_c14n", name_re=r"C14nState::<'_, H, T>::hash_n_degree_quads::\{closure#0\}$")
+    # the per-permutation closure: the one handed to for_each_permutation_of (closure ordinals shift when a helper closure is added)
+    fns = []
+    for pf_ in facts.find_fns(crate="sophia_c14n", name_re=r"C14nState::<'_, H, T>::hash_n_degree_quads$"):
+        for _, t_ in pf_.calls():
+            if call_name_matches(t_, r"for_each_permutation_of$") and len(t_["args"]) > 1:
+                o_ = pf_.origin(t_["args"][1])
+                if o_[0] == "agg" and o_[1].get("k") == "closure" and o_[1].get("def") in facts.fns:
+                    fns.append(facts.fns[o_[1]["def"]])
     if len(fns) != 1:
         ck.bad("R5.6", "R5.6@hash_n_degree_quads#anchor", "anchor-missing: the per-permutation closure (%d)" % len(fns))
         return
@@ -235,6 +242,13 @@ def run(ck, facts, tier):
     if fn is not None:
         sorts = sort_calls(fn)
         writes = [bi for bi, t in fn.calls() if call_name_matches(t, r"io::Write::write_all$")]
+        writing = {u.id for u in facts.with_closures(fn)[1:] if any(call_name_matches(t, r"io::Write::write_all$") for _, t in u.calls())}
+        for bi, t in fn.calls():            # the writes may sit in a closure handed to an iterator adaptor (try_for_each)
+            for a_ in t["args"]:
+                if a_[0] != "k":
+                    o_ = fn.origin(a_)
+                    if o_[0] == "agg" and o_[1].get("def") in writing:
+                        writes.append(bi)
         if len(sorts) == 1 and writes and all(fn.dominates(sorts[0][0], w) for w in writes):
             ck.ok("R5.1", "normalize_with: quads sorted before anything is written")
             clo = fn.origin(sorts[0][1]["args"][1]) if len(sorts[0][1]["args"]) > 1 else None
